@@ -60,5 +60,5 @@ def configs(tier):
 def run(tier, seed):
     Ks = (44, 56, 68) if tier == "quick" else (50, 64, 80, 100)
     return runner.run_property("C04", tier, seed, "harness.pools_common", configs(tier), ("assert",), Ks,
-                               900 if tier == "quick" else 2400, META, wall_limit=1700 if tier == "quick" else 12000,
+                               900 if tier == "quick" else 1200, META, wall_limit=1700 if tier == "quick" else 5400,
                                extra_module="harness.c04", faults_may_block=True)
